@@ -70,7 +70,7 @@ impl Method for LinReg {
 		#![allow(clippy::all)]
 		#[allow(clippy::suspicious_operation_groupings)] // s_x * s_x looks suspicious, but it's not
 		match length {
-			0 | 1 => Err(Error::WrongMethodParameters),
+			0 | 1 | PeriodType::MAX => Err(Error::WrongMethodParameters),
 			length => {
 				let l64 = length as usize;
 				let float_length = length as ValueType;
